@@ -389,8 +389,9 @@ multiplication by an SPD matrix `B`, independent of the scratch contents, and `1
 all its eigenvalues have modulus `< 1`: `C02b.spectral_radius_lt_one`).
 
 MISSING for the full statement:
-1. `over_interp ≠ 1`: the coarse matrix is `s • (R A P)` (`scaled_galerkin_matrix`), outside `Hier.OK`; for it only
-   `built_realizes_any_coarse` (the cycle is a fixed matrix recursion) is proved, not SPD / contraction;
+1. `over_interp ≠ 1` (the DEFAULT of plain aggregation): the coarse matrix is `s • (R A P)` (`scaled_galerkin_matrix`), outside
+   `Hier.OK`; `built_realizes_any_coarse` (the cycle is a fixed matrix recursion) is proved, SPD / contraction are not — and the
+   contraction clause is in fact FALSE there on 4+ levels: `C02d.over_interp_not_contracting` (known finding K02);
 2. `PolicyOK` / `PolicyNodup` / `PolicyInjective` instances for smoothed aggregation and Ruge–Stüben (both return
    `R = transpose(P)`; `built_apply_spd_contracting` applies verbatim once their `P` is shown well formed, duplicate free
    and injective), `smoothed_aggr_emin` (`R ≠ Pᵀ`), `block_size > 1`;
